@@ -1,3 +1,874 @@
 package main
 
-func setterAccLayers(tier string) []Layer { return nil }
+// Setter spaces shared by C14 (integer/rational conversions), C20 (raw mantissa
+// access, MantExp/SetMantExp) and C02 (accuracy of the setters).
+
+import (
+	"fmt"
+	"math"
+	"math/big"
+
+	"github.com/db47h/decimal"
+)
+
+// judgeSetter compares the receiver after a setter with the exact argument value
+// rounded once to (prec, mode). For prec == 0 the caller passes the precision
+// the receiver is documented to take (wantPrec; 0 = do not check).
+func judgeSetter(c *Ctx, j judge, key func() string, z *Dec, pv interface{}, exact Val, prec uint32, mode uint8) {
+	if pv != nil {
+		c.Fail(key(), fmt.Sprintf("panic: %v", pv))
+		return
+	}
+	o := Observe(z)
+	c.Outcome(o.Hash())
+	if msg := Canonical(o); msg != "" {
+		c.Fail(key(), "result not canonical: "+msg)
+		return
+	}
+	exp := RoundVal(exact, prec, mode)
+	if exp.Acc != 0 {
+		c.NonTrivial()
+	}
+	ok := matchValue(o, exp)
+	switch j {
+	case judgeValue:
+		if !ok {
+			c.Fail(key(), cmpValue(o, exp))
+		}
+	case judgeAcc:
+		want := exp.Acc
+		if !ok {
+			want = int8(CmpVal(o.Val(), exact))
+		}
+		if o.Acc != want {
+			c.Fail(key(), fmt.Sprintf("Acc() = %d but sign(stored − exact) = %d; stored %s, model %s", o.Acc, want, o, exp))
+		}
+	}
+	if c.WantSample() {
+		c.Sample(fmt.Sprintf("%s -> %s", key(), o))
+	}
+}
+
+var setterPrecs = []uint32{0, 1, 2, 5, 19, 20, 34, 40}
+
+// effPrec is the precision a zero-precision receiver takes for an integer argument:
+// max(digit count incl. trailing zeros, DefaultDecimalPrec)  (documented for SetInt),
+// DefaultDecimalPrec for the 64-bit setters.
+func intPrec(p uint32, v *big.Int, is64 bool) uint32 {
+	if p != 0 {
+		return p
+	}
+	if is64 || v.Sign() == 0 {
+		return 34
+	}
+	d := uint32(ndigits(new(big.Int).Abs(v)))
+	if d < 34 {
+		d = 34
+	}
+	return d
+}
+
+func valOfInt(v *big.Int) Val {
+	if v.Sign() == 0 {
+		return Val{Form: fZero}
+	}
+	return Val{Form: fFinite, Neg: v.Sign() < 0, Coef: new(big.Int).Abs(v), E10: 0}
+}
+
+func edgeInts(maxBits int) []*big.Int {
+	var out []*big.Int
+	seen := map[string]bool{}
+	add := func(v *big.Int) {
+		for _, s := range []int64{1, -1} {
+			w := new(big.Int).Mul(v, big.NewInt(s))
+			if !seen[w.String()] {
+				seen[w.String()] = true
+				out = append(out, w)
+			}
+		}
+	}
+	add(big.NewInt(0))
+	for _, d := range []int64{0, 1, -1, 2, 5} {
+		for k := 0; k <= maxBits; k++ {
+			if k > 70 && k%19 != 0 && k%64 != 0 && k%63 != 0 && k%65 != 0 {
+				continue
+			}
+			v := new(big.Int).Lsh(big1, uint(k))
+			v.Add(v, big.NewInt(d))
+			if v.Sign() > 0 {
+				add(v)
+			}
+		}
+		for k := int64(0); k <= int64(maxBits)*3/10; k++ {
+			if k > 45 && k%19 != 0 && k%19 != 1 && k%19 != 18 {
+				continue
+			}
+			v := new(big.Int).Add(p10(k), big.NewInt(d))
+			if v.Sign() > 0 {
+				add(v)
+			}
+		}
+	}
+	return out
+}
+
+func edgeInt64s() []int64 {
+	seen := map[int64]bool{}
+	var out []int64
+	add := func(v int64) {
+		if !seen[v] {
+			seen[v] = true
+			out = append(out, v)
+		}
+	}
+	for _, v := range []int64{0, 1, -1, 7, -7, 15, 99, 12345, -12345, math.MaxInt64, math.MinInt64, math.MaxInt64 - 1, math.MinInt64 + 1, 5000000000000000000, 4999999999999999999, 1234567890123456789, 999999999999999999, 9223372036854775800} {
+		add(v)
+	}
+	p := int64(1)
+	for k := 0; k <= 18; k++ {
+		add(p)
+		add(-p)
+		add(p + 1)
+		add(p - 1)
+		add(-p - 1)
+		add(5 * p)
+		add(5*p + 1)
+		add(-5*p - 1)
+		if k < 18 {
+			p *= 10
+		}
+	}
+	return out
+}
+
+func setterLayers(j judge, tier string) []Layer {
+	thorough := tier == "thorough"
+	var layers []Layer
+	// S1: SetInt
+	{
+		maxBits := 1300
+		if thorough {
+			maxBits = 4000
+		}
+		ints := edgeInts(maxBits)
+		layers = append(layers, Layer{
+			Name:   "S1-SetInt",
+			Units:  len(ints),
+			Bounds: fmt.Sprintf("SetInt(±(2^k+d)), ±(10^k+d), d in {0,±1,2,5}, k up to %d bits (%d integers) × receiver prec %v × 6 modes × 2 pre-states", maxBits, len(ints), setterPrecs),
+			Run: func(c *Ctx, u int) {
+				v := ints[u]
+				ex := valOfInt(v)
+				for _, p := range setterPrecs {
+					for _, m := range M6 {
+						for _, pre := range []int{preFresh, preLonger} {
+							if c.Skip() {
+								continue
+							}
+							z := buildPre(pre, p, m)
+							arg := new(big.Int).Set(v)
+							pv, _ := protect(func() { z.SetInt(arg) })
+							key := func() string { return fmt.Sprintf("SetInt(%s) prec=%d mode=%s pre=%s", v, p, modeName(m), preNames[pre]) }
+							if arg.Cmp(v) != 0 {
+								c.Fail(key(), "argument modified")
+							}
+							judgeSetter(c, j, key, z, pv, ex, intPrec(p, v, false), m)
+						}
+					}
+				}
+			},
+		})
+	}
+	// S2: SetInt64 / SetUint64 / NewDecimal
+	{
+		i64 := edgeInt64s()
+		exps := []int64{0, 1, -1, 5, -40, 40, MaxExp, MaxExp - 1, MaxExp - 19, MaxExp - 20, MinExp, MinExp + 1, MinExp - 1, MinExp - 19, MinExp + 18, math.MaxInt64, math.MaxInt64 - 40, math.MinInt64, math.MinInt64 + 40, 1 << 32, -(1 << 32), 1 << 31, -(1 << 31) - 1}
+		layers = append(layers, Layer{
+			Name:   "S2-SetInt64-Uint64-NewDecimal",
+			Units:  len(i64),
+			Bounds: fmt.Sprintf("SetInt64/SetUint64 over %d edge values (0, ±10^k, ±(10^k±1), ±5·10^k, int64/uint64 extremes) × prec %v × 6 modes; NewDecimal(x, exp) for exp in %d values incl. the int32 and int64 extremes", len(i64), setterPrecs, len(exps)),
+			Run: func(c *Ctx, u int) {
+				v := i64[u]
+				for _, p := range setterPrecs {
+					for _, m := range M6 {
+						if !c.Skip() {
+							z := buildPre(preFresh, p, m)
+							pv, _ := protect(func() { z.SetInt64(v) })
+							judgeSetter(c, j, func() string { return fmt.Sprintf("SetInt64(%d) prec=%d mode=%s", v, p, modeName(m)) }, z, pv, valOfInt(big.NewInt(v)), intPrec(p, nil2(v), true), m)
+						}
+						for _, uv := range []uint64{uint64(v), uint64(v) ^ (1 << 63), math.MaxUint64 - uint64(u), 10000000000000000000 + uint64(u) - 40} {
+							if c.Skip() {
+								continue
+							}
+							z := buildPre(preShorter, p, m)
+							pv, _ := protect(func() { z.SetUint64(uv) })
+							bv := new(big.Int).SetUint64(uv)
+							judgeSetter(c, j, func() string { return fmt.Sprintf("SetUint64(%d) prec=%d mode=%s", uv, p, modeName(m)) }, z, pv, valOfInt(bv), intPrec(p, bv, true), m)
+						}
+					}
+				}
+				for _, e := range exps {
+					if c.Skip() {
+						continue
+					}
+					var z *Dec
+					pv, _ := protect(func() { z = decimal.NewDecimal(v, int(e)) })
+					ex := valOfInt(big.NewInt(v))
+					if ex.Form == fFinite {
+						ex.E10 = e
+						// exponent arithmetic on the model side must not overflow either
+						if e > math.MaxInt64-100 {
+							ex.E10 = math.MaxInt64 / 2
+						}
+						if e < math.MinInt64+100 {
+							ex.E10 = math.MinInt64 / 2
+						}
+					}
+					judgeSetter(c, j, func() string { return fmt.Sprintf("NewDecimal(%d, %d)", v, e) }, z, pv, ex, 34, ToNearestEven)
+					if pv == nil && z != nil && (z.Prec() != 34 || z.Mode() != decimal.ToNearestEven) {
+						c.Fail(fmt.Sprintf("NewDecimal(%d, %d) attributes", v, e), fmt.Sprintf("prec %d mode %v", z.Prec(), z.Mode()))
+					}
+				}
+			},
+		})
+	}
+	// S3: SetRat
+	{
+		type rat struct{ a, b *big.Int }
+		var rats []rat
+		for a := int64(0); a <= 40; a++ {
+			for b := int64(1); b <= 40; b++ {
+				rats = append(rats, rat{big.NewInt(a), big.NewInt(b)})
+			}
+		}
+		for _, k := range []uint{10, 63, 64, 65, 200} {
+			for _, jj := range []int64{1, 19, 20, 38, 60} {
+				rats = append(rats, rat{new(big.Int).Lsh(big1, k), p10(jj)}, rat{p10(jj), new(big.Int).Lsh(big1, k)}, rat{new(big.Int).Add(p10(jj), big1), new(big.Int).Sub(new(big.Int).Lsh(big1, k), big1)})
+			}
+		}
+		layers = append(layers, Layer{
+			Name:   "S3-SetRat",
+			Units:  len(rats),
+			Bounds: fmt.Sprintf("SetRat(±a/b) for a in 0..40, b in 1..40 and 75 large 2^k/10^j style rationals × receiver prec {1,2,3,5,19,20,34,40} × 6 modes (precision 0 is C09's subject)"),
+			Run: func(c *Ctx, u int) {
+				r := rats[u]
+				for _, neg := range []bool{false, true} {
+					q := new(big.Rat).SetFrac(r.a, r.b)
+					if neg {
+						q.Neg(q)
+					}
+					for _, p := range setterPrecs[1:] {
+						for _, m := range M6 {
+							if c.Skip() {
+								continue
+							}
+							z := buildPre(preFresh, p, m)
+							arg := new(big.Rat).Set(q)
+							pv, _ := protect(func() { z.SetRat(arg) })
+							key := func() string { return fmt.Sprintf("SetRat(%s) prec=%d mode=%s", q, p, modeName(m)) }
+							if pv != nil {
+								c.Fail(key(), fmt.Sprintf("panic: %v", pv))
+								continue
+							}
+							o := Observe(z)
+							c.Outcome(o.Hash())
+							if msg := Canonical(o); msg != "" {
+								c.Fail(key(), "result not canonical: "+msg)
+								continue
+							}
+							var exp RRes
+							if q.Sign() == 0 {
+								exp = RRes{Form: fZero, Neg: false}
+							} else {
+								exp = PrepRat(new(big.Int).Abs(q.Num()), q.Denom(), 0, p).Apply(q.Sign() < 0, m)
+							}
+							if exp.Acc != 0 {
+								c.NonTrivial()
+							}
+							ok := matchValue(o, exp)
+							if j == judgeValue && !ok {
+								c.Fail(key(), cmpValue(o, exp))
+							}
+							if j == judgeAcc {
+								want := exp.Acc
+								if !ok {
+									if q.Sign() == 0 {
+										want = int8(CmpVal(o.Val(), Val{Form: fZero}))
+									} else {
+										want = cmpStoredExact(o, exactRes{neg: q.Sign() < 0, num: new(big.Int).Abs(q.Num()), den: q.Denom()})
+									}
+								}
+								if o.Acc != want {
+									c.Fail(key(), fmt.Sprintf("Acc() = %d but sign(stored − exact) = %d; stored %s", o.Acc, want, o))
+								}
+							}
+						}
+					}
+				}
+			},
+		})
+	}
+	// S4: SetMantExp
+	{
+		var xs []*Opnd
+		for _, cf := range []int64{1, 15, 999, 123456789} {
+			xs = append(xs, mkInt64(cf, 0, 12, 3), mkInt64(-cf, 0, 34, 5))
+		}
+		for i, v := range WVecs(2, S7) {
+			if i%4 == 0 {
+				xs = append(xs, mkWords(i%8 == 0, v, 0, 0, uint8(i%6)))
+			}
+		}
+		for _, f := range []int8{fZero, fInf} {
+			xs = append(xs, mkSpecial(f, false, 7, 1), mkSpecial(f, true, 0, 4))
+		}
+		mexps := []int64{0, 1, -1, 3, -3, MaxExp, MaxExp - 1, MinExp, MinExp + 1}
+		offs := []int64{0, 1, -1, 2, -2, 3, -3, 1<<31 - 2, 1<<31 - 1, 1 << 31, 1<<31 + 1, -(1 << 31) + 1, -(1 << 31), -(1 << 31) - 1, -(1 << 31) - 2, 1 << 32, -(1 << 32), 1<<32 - 1, -(1 << 32) + 1, math.MaxInt64, math.MaxInt64 - 1, math.MinInt64, math.MinInt64 + 1}
+		layers = append(layers, Layer{
+			Name:   "S4-SetMantExp",
+			Units:  len(xs),
+			Bounds: fmt.Sprintf("z.SetMantExp(mant, e): mant from %d values (own precision and mode) placed at exponents %v, e in %d offsets incl. ±2^31±2, ±2^32, int64 extremes; receiver distinct or identical to mant; 3 receiver pre-states", len(xs), mexps, len(offs)),
+			Run: func(c *Ctx, u int) {
+				for _, me := range mexps {
+					mo := *xs[u]
+					if mo.Form == fFinite {
+						mo.Exp = me
+						mo.V.E10 = me - int64(len(mo.Words))*DW
+					} else if me != 0 {
+						continue
+					}
+					for _, off := range offs {
+						for _, kind := range []int{0, 1, 2, 3} {
+							if c.Skip() {
+								continue
+							}
+							mant := mo.Build()
+							var z *Dec
+							switch kind {
+							case 0:
+								z = new(Dec)
+							case 1:
+								z = buildPre(preLonger, 3, ToZero)
+							case 2:
+								z = buildPre(preNegInf, 50, AwayFromZero)
+							case 3:
+								z = mant
+							}
+							pv, _ := protect(func() { z.SetMantExp(mant, int(off)) })
+							key := func() string {
+								return fmt.Sprintf("SetMantExp(mant=%s@exp%d, %d) receiver=%d", xs[u], me, off, kind)
+							}
+							ex := mo.V
+							if ex.Form == fFinite {
+								// exact value mant × 10^off, model exponent kept in range of int64
+								o := off
+								if o > 1<<40 {
+									o = 1 << 40
+								}
+								if o < -(1 << 40) {
+									o = -(1 << 40)
+								}
+								ex.E10 += o
+							}
+							judgeSetter(c, j, key, z, pv, ex, mo.Prec, mo.Mode)
+							if pv == nil && j == judgeValue {
+								if ob := Observe(z); ob.Prec != mo.Prec || ob.Mode != mo.Mode {
+									c.Fail(key()+" attributes", fmt.Sprintf("result must have mant's precision and mode (%d, %d), got %s", mo.Prec, mo.Mode, ob))
+								}
+								if kind != 3 {
+									if msg := mo.CheckBuilt(mant); msg != "" {
+										c.Fail(key()+" operand", "mant modified: "+msg)
+									}
+								}
+							}
+						}
+					}
+				}
+			},
+		})
+	}
+	return layers
+}
+
+func nil2(v int64) *big.Int { return big.NewInt(v) }
+
+// setterAccLayers: C02's projection of the setter spaces (plus base-10 parsing, added by parse.go).
+func setterAccLayers(tier string) []Layer {
+	ls := setterLayers(judgeAcc, tier)
+	ls = append(ls, parseAccLayers(tier)...)
+	return ls
+}
+
+// ---------------------------------------------------------------------------
+// C14 getters: Int, Int64, Uint64, Rat, IsInt, MinPrec
+
+func getterCase(c *Ctx, xo *Opnd) {
+	if c.Skip() {
+		return
+	}
+	x := xo.Build()
+	key := func(op string) string { return fmt.Sprintf("%s x=%s", op, xo) }
+	v := xo.V
+	// exact integer part (toward zero) and whether a fraction was discarded
+	var ip *big.Int
+	frac := false
+	if v.Form == fFinite {
+		if v.E10 >= 0 {
+			ip = new(big.Int).Mul(v.Coef, p10(v.E10))
+		} else {
+			r := new(big.Int)
+			ip, r = new(big.Int).QuoRem(v.Coef, p10(-v.E10), r)
+			frac = r.Sign() != 0
+		}
+		if v.Neg {
+			ip.Neg(ip)
+		}
+		if frac {
+			c.NonTrivial()
+		}
+	}
+	accTrunc := func() int8 { // sign(returned − x) after truncation toward zero
+		if !frac {
+			return 0
+		}
+		if v.Neg {
+			return 1
+		}
+		return -1
+	}
+	// Int
+	{
+		var got *big.Int
+		var acc decimal.Accuracy
+		pv, _ := protect(func() { got, acc = x.Int(nil) })
+		switch {
+		case pv != nil:
+			c.Fail(key("Int"), fmt.Sprintf("panic: %v", pv))
+		case v.Form == fInf:
+			want := int8(-1)
+			if v.Neg {
+				want = 1
+			}
+			if got != nil || int8(acc) != want {
+				c.Fail(key("Int"), fmt.Sprintf("Int(±Inf) = %v, %v; want nil, %d", got, acc, want))
+			}
+		case v.Form == fZero:
+			if got == nil || got.Sign() != 0 || acc != 0 {
+				c.Fail(key("Int"), fmt.Sprintf("got %v, %v", got, acc))
+			}
+		default:
+			if got == nil || got.Cmp(ip) != 0 || int8(acc) != accTrunc() {
+				c.Fail(key("Int"), fmt.Sprintf("got %v acc %v, want %v acc %d", got, acc, ip, accTrunc()))
+			}
+		}
+		// with a supplied big.Int holding garbage
+		if v.Form == fFinite {
+			z := new(big.Int).Lsh(big1, 300)
+			z.Neg(z)
+			pv, _ := protect(func() { got, _ = x.Int(z) })
+			if pv != nil || got != z || got.Cmp(ip) != 0 {
+				c.Fail(key("Int(z)"), fmt.Sprintf("got %v (panic %v), want %v stored in the supplied Int", got, pv, ip))
+			}
+		}
+	}
+	// Int64
+	{
+		var got int64
+		var acc decimal.Accuracy
+		pv, _ := protect(func() { got, acc = x.Int64() })
+		var want int64
+		var wacc int8
+		switch {
+		case v.Form == fZero:
+		case v.Form == fInf || !ip.IsInt64():
+			if v.Neg {
+				want, wacc = math.MinInt64, 1
+			} else {
+				want, wacc = math.MaxInt64, -1
+			}
+		default:
+			want, wacc = ip.Int64(), accTrunc()
+		}
+		if pv != nil || got != want || int8(acc) != wacc {
+			c.Fail(key("Int64"), fmt.Sprintf("got %d acc %v (panic %v), want %d acc %d", got, acc, pv, want, wacc))
+		}
+	}
+	// Uint64
+	{
+		var got uint64
+		var acc decimal.Accuracy
+		pv, _ := protect(func() { got, acc = x.Uint64() })
+		var want uint64
+		var wacc int8
+		switch {
+		case v.Form == fZero:
+		case v.Neg:
+			want, wacc = 0, 1
+		case v.Form == fInf || !ip.IsUint64():
+			want, wacc = math.MaxUint64, -1
+		default:
+			want, wacc = ip.Uint64(), accTrunc()
+		}
+		if pv != nil || got != want || int8(acc) != wacc {
+			c.Fail(key("Uint64"), fmt.Sprintf("got %d acc %v (panic %v), want %d acc %d", got, acc, pv, want, wacc))
+		}
+	}
+	// Rat (skip astronomically large expansions)
+	if v.Form != fFinite || (v.E10 < 5000 && v.E10 > -5000) {
+		var got *big.Rat
+		var acc decimal.Accuracy
+		pv, _ := protect(func() { got, acc = x.Rat(nil) })
+		switch {
+		case pv != nil:
+			c.Fail(key("Rat"), fmt.Sprintf("panic: %v", pv))
+		case v.Form == fInf:
+			want := int8(-1)
+			if v.Neg {
+				want = 1
+			}
+			if got != nil || int8(acc) != want {
+				c.Fail(key("Rat"), fmt.Sprintf("Rat(±Inf) = %v, %v", got, acc))
+			}
+		default:
+			want := new(big.Rat)
+			if v.Form == fFinite {
+				if v.E10 >= 0 {
+					want.SetInt(new(big.Int).Mul(v.Coef, p10(v.E10)))
+				} else {
+					want.SetFrac(v.Coef, p10(-v.E10))
+				}
+				if v.Neg {
+					want.Neg(want)
+				}
+			}
+			if got == nil || got.Cmp(want) != 0 || acc != 0 {
+				c.Fail(key("Rat"), fmt.Sprintf("got %v acc %v, want %v Exact", got, acc, want))
+			}
+			if v.Form == fFinite {
+				// supplied Rat with garbage
+				z := big.NewRat(-355, 113)
+				pv, _ := protect(func() { got, _ = x.Rat(z) })
+				if pv != nil || got.Cmp(want) != 0 {
+					c.Fail(key("Rat(z)"), fmt.Sprintf("got %v (panic %v), want %v", got, pv, want))
+				}
+			}
+		}
+	}
+	// IsInt, MinPrec
+	{
+		wantInt := v.Form == fZero || (v.Form == fFinite && !frac)
+		if x.IsInt() != wantInt {
+			c.Fail(key("IsInt"), fmt.Sprintf("got %v want %v", x.IsInt(), wantInt))
+		}
+		wantMP := uint(0)
+		if v.Form == fFinite {
+			wantMP = uint(ndigits(v.Norm().Coef))
+		}
+		if x.MinPrec() != wantMP {
+			c.Fail(key("MinPrec"), fmt.Sprintf("got %d want %d", x.MinPrec(), wantMP))
+		}
+	}
+	if msg := xo.CheckBuilt(x); msg != "" {
+		c.Fail(key("operand"), "x modified by a getter: "+msg)
+	}
+	if c.WantSample() {
+		c.Sample("getters x=" + xo.String())
+	}
+}
+
+func getterLayers(tier string) []Layer {
+	thorough := tier == "thorough"
+	var layers []Layer
+	// G1: boundary-centred values v + f
+	{
+		var bases []*big.Int
+		for _, b := range []*big.Int{new(big.Int).Lsh(big1, 63), new(big.Int).Lsh(big1, 64), p10(19), p10(38), p10(18), p10(20), big.NewInt(0), big.NewInt(1)} {
+			for d := int64(-2); d <= 2; d++ {
+				v := new(big.Int).Add(b, big.NewInt(d))
+				bases = append(bases, v)
+			}
+		}
+		fracs := []struct {
+			c int64
+			e int64
+		}{{0, 0}, {1, -1}, {5, -1}, {9, -1}, {99999999999999999, -17}, {1, -20}, {1, -40}, {5, -19}}
+		layers = append(layers, Layer{
+			Name:   "G1-boundaries",
+			Units:  len(bases),
+			Bounds: "x = ±(v + f), v in {2^63, 2^64, 10^18, 10^19, 10^20, 10^38, 0, 1} + {-2..2}, f in {0, .1, .5, .9, .99999999999999999, 10^-20, 10^-40, 5·10^-19}: Int, Int64, Uint64, Rat, IsInt, MinPrec",
+			Run: func(c *Ctx, u int) {
+				for _, f := range fracs {
+					for _, neg := range []bool{false, true} {
+						// v·10^k + f.c with common exponent f.e
+						n := new(big.Int).Mul(bases[u], p10(-f.e))
+						n.Add(n, big.NewInt(f.c))
+						if n.Sign() <= 0 {
+							if n.Sign() == 0 {
+								getterCase(c, mkSpecial(fZero, neg, 34, 0))
+							}
+							continue
+						}
+						getterCase(c, mkCoef(neg, n, f.e, uint32(ndigits(n))+3, 0))
+					}
+				}
+			},
+		})
+	}
+	// G2: digit-level × exponents, word-edge × exponents, specials
+	{
+		var xs []*Opnd
+		k := 3
+		if thorough {
+			k = 4
+		}
+		for _, cf := range DCoefs(k) {
+			for e := int64(-3); e <= 22; e++ {
+				xs = append(xs, mkInt64(cf, e, 34, 0), mkInt64(-cf, e, 34, 0))
+			}
+		}
+		for _, v := range WVecs(3, S7) {
+			for _, e := range []int64{-20, -1, 0, 1, 18, 19, 20, 21, 37, 38, 39, 57, 58, 60} {
+				xs = append(xs, mkWords(false, v, e, 0, 0), mkWords(true, v, e, 0, 0))
+			}
+		}
+		for _, f := range []int8{fZero, fInf} {
+			xs = append(xs, mkSpecial(f, false, 0, 0), mkSpecial(f, true, 0, 0))
+		}
+		for _, e := range []int64{MaxExp, MinExp, 4000, -4000} {
+			o := mkInt64(123, 0, 34, 0)
+			o.Exp = e
+			o.V.E10 = e - int64(len(o.Words))*DW
+			xs = append(xs, o)
+		}
+		const chunk = 64
+		layers = append(layers, Layer{
+			Name:   "G2-values",
+			Units:  (len(xs) + chunk - 1) / chunk,
+			Bounds: fmt.Sprintf("x in ±D(%d)×10^[-3..22] ∪ ±W(3,S7)×14 exponents (-20..60) ∪ {±0, ±Inf, huge/tiny exponents} (%d values): all getters", k, len(xs)),
+			Run: func(c *Ctx, u int) {
+				for i := u * chunk; i < (u+1)*chunk && i < len(xs); i++ {
+					if xs[i].Form == fFinite && (xs[i].Exp > 100000 || xs[i].Exp < -100000) {
+						// Int/Rat of 10^(2^31) cannot be materialised; only the cheap getters
+						if !c.Skip() {
+							x := xs[i].Build()
+							i64, a := x.Int64()
+							u64, b := x.Uint64()
+							if xs[i].Exp > 0 && (i64 != math.MaxInt64 || a != decimal.Below || u64 != math.MaxUint64 || b != decimal.Below) {
+								c.Fail("Int64/Uint64 x="+xs[i].String(), fmt.Sprintf("got %d %v %d %v", i64, a, u64, b))
+							}
+							if xs[i].Exp < 0 && (i64 != 0 || a != decimal.Below || u64 != 0 || b != decimal.Below || x.IsInt()) {
+								c.Fail("Int64/Uint64 x="+xs[i].String(), fmt.Sprintf("got %d %v %d %v IsInt=%v", i64, a, u64, b, x.IsInt()))
+							}
+						}
+						continue
+					}
+					getterCase(c, xs[i])
+				}
+			},
+		})
+	}
+	return layers
+}
+
+// ---------------------------------------------------------------------------
+// C20: SetBitsExp / BitsExp / MantExp
+
+func rawLayers(tier string) []Layer {
+	thorough := tier == "thorough"
+	var layers []Layer
+	L := 4
+	if thorough {
+		L = 5
+	}
+	vecs := WVecsAll(L, S7)
+	exps := []int64{0, 1, -1, 19, -40, 40, MaxExp, MaxExp - 1, MaxExp + 1, MaxExp + 19, MaxExp + 57, MinExp, MinExp + 1, MinExp - 1, MinExp + 18, MinExp + 19, MinExp + 38, math.MaxInt64, math.MaxInt64 - 40, math.MinInt64, math.MinInt64 + 40}
+	precs := []uint32{0, 1, 5, 19, 20, 38, 57, 100}
+	layers = append(layers, Layer{
+		Name:   "R1-SetBitsExp",
+		Units:  len(vecs),
+		Bounds: fmt.Sprintf("SetBitsExp(mant, exp) for every word vector of length 0..%d over S7 (%d vectors: all-zero, leading zero words, low zero words, unnormalised top words) × %d exponents incl. range ends and int64 extremes × receiver prec %v × 6 modes × receiver pre-states {fresh, held-longer, -Inf}; BitsExp afterwards", L, len(vecs), len(exps), precs),
+		Run: func(c *Ctx, u int) {
+			raw := vecs[u]
+			ci := wordsToInt(raw)
+			for _, e := range exps {
+				for _, p := range precs {
+					for _, m := range M6 {
+						for _, pre := range []int{preFresh, preLonger, preNegInf} {
+							if c.Skip() {
+								continue
+							}
+							z := buildPre(pre, p, m)
+							// a negative receiver must become positive
+							buf := toWords(raw)
+							pv, _ := protect(func() { z.SetBitsExp(buf, e) })
+							key := func() string {
+								return fmt.Sprintf("SetBitsExp(%s, %d) prec=%d mode=%s pre=%s", wordsKey(raw), e, p, modeName(m), preNames[pre])
+							}
+							ex := Val{Form: fZero}
+							if ci.Sign() != 0 {
+								ee := e
+								if ee > 1<<40 {
+									ee = 1 << 40
+								}
+								if ee < -(1 << 40) {
+									ee = -(1 << 40)
+								}
+								ex = Val{Form: fFinite, Coef: ci, E10: ee - int64(len(raw))*DW}
+							}
+							pp := p
+							if pp == 0 {
+								// no documented rule: the value must be stored exactly (precision at least the digit count)
+								pp = uint32(len(raw)*DW + 34)
+							}
+							judgeSetter(c, judgeValue, key, z, pv, ex, pp, m)
+							if pv != nil {
+								continue
+							}
+							o := Observe(z)
+							if o.Mode != m || (p != 0 && o.Prec != p) {
+								c.Fail(key()+" attributes", fmt.Sprintf("precision/mode changed: %s", o))
+							}
+							// BitsExp denotes exactly the receiver's magnitude and aliases its buffer
+							bm, be := z.BitsExp()
+							if o.Form == fFinite {
+								bv := Val{Form: fFinite, Coef: wordsToInt(fromWords(bm)), E10: int64(be) - int64(len(bm))*DW}
+								if bv.Coef.Sign() == 0 || !bv.Equal(Val{Form: fFinite, Coef: o.Val().Coef, E10: o.Val().E10}) {
+									c.Fail(key()+" BitsExp", fmt.Sprintf("BitsExp = %v, %d does not denote |z| = %s", bm, be, o.Val()))
+								}
+								if len(bm) > 0 && len(buf) > 0 && p != 0 && pre == preFresh {
+									// result and mant share the underlying array (documented)
+									if &bm[0] != &buf[0] && &bm[len(bm)-1] != &buf[len(buf)-1] && cap(buf) >= len(bm) {
+										// sharing is documented but not part of the property's statement: counted, not judged
+										c.Count("setbitsexp_did_not_share_buffer", 1)
+									}
+								}
+							} else if len(bm) != 0 {
+								c.Fail(key()+" BitsExp", fmt.Sprintf("BitsExp of a non-finite value returned %d words", len(bm)))
+							}
+						}
+					}
+				}
+			}
+		},
+	})
+	// R2: MantExp / SetMantExp inverse
+	{
+		var xs []*Opnd
+		for i, cf := range DCoefs(2) {
+			xs = append(xs, mkInt64(cf, 0, uint32(3+i%30), uint8(i%6)))
+		}
+		for i, v := range WVecs(3, S7) {
+			xs = append(xs, mkWords(i%2 == 0, v, 0, 0, uint8(i%6)))
+		}
+		xexps := []int64{0, 1, -1, 2, -3, MaxExp, MaxExp - 1, MinExp, MinExp + 1, 12345, -54321}
+		layers = append(layers, Layer{
+			Name:   "R2-MantExp-inverse",
+			Units:  len(xs),
+			Bounds: fmt.Sprintf("x from D(2) ∪ W(3,S7) (%d values, own precision/mode) at exponents %v, and ±0, ±Inf: e = x.MantExp(mant): mant in [0.1,1), same sign/precision/mode, x == mant×10^e; SetMantExp(mant, e) == x; MantExp(nil); x.MantExp(x) aliasing", len(xs), xexps),
+			Run: func(c *Ctx, u int) {
+				for _, xe := range xexps {
+					if c.Skip() {
+						continue
+					}
+					xo := *xs[u]
+					xo.Exp = xe
+					xo.V.E10 = xe - int64(len(xo.Words))*DW
+					mantExpCase(c, &xo)
+				}
+				if u < 4 {
+					if !c.Skip() {
+						mantExpCase(c, mkSpecial([]int8{fZero, fInf}[u%2], u >= 2, 9, ToPositiveInf))
+					}
+				}
+			},
+		})
+	}
+	return layers
+}
+
+func mantExpCase(c *Ctx, xo *Opnd) {
+	x := xo.Build()
+	key := fmt.Sprintf("MantExp x=%s@exp%d", xo, xo.Exp)
+	mant := buildPre(preLonger, 3, ToZero)
+	var e int
+	pv, _ := protect(func() { e = x.MantExp(mant) })
+	if pv != nil {
+		c.Fail(key, fmt.Sprintf("panic: %v", pv))
+		return
+	}
+	c.NonTrivial()
+	mo := Observe(mant)
+	if msg := Canonical(mo); msg != "" {
+		c.Fail(key, "mant not canonical: "+msg)
+		return
+	}
+	if xo.Form != fFinite {
+		if e != 0 || mo.Form != xo.Form || mo.Neg != xo.Neg {
+			c.Fail(key, fmt.Sprintf("special: e=%d mant=%s", e, mo))
+		}
+		return
+	}
+	if int64(e) != xo.Exp || x.MantExp(nil) != e {
+		c.Fail(key, fmt.Sprintf("exponent %d (MantExp(nil) = %d), want %d", e, x.MantExp(nil), xo.Exp))
+		return
+	}
+	if mo.Form != fFinite || mo.Exp != 0 || mo.Neg != xo.Neg || mo.Prec != xo.Prec || mo.Mode != xo.Mode {
+		c.Fail(key, fmt.Sprintf("mant = %s: want exponent 0 (0.1 <= |mant| < 1), x's sign, precision %d and mode %d", mo, xo.Prec, xo.Mode))
+		return
+	}
+	// x == mant × 10^e
+	mv := mo.Val()
+	mv.E10 += int64(e)
+	if !mv.Equal(xo.V) {
+		c.Fail(key, fmt.Sprintf("mant×10^e = %s != x = %s", mv.Norm(), xo.V.Norm()))
+		return
+	}
+	if msg := xo.CheckBuilt(x); msg != "" {
+		c.Fail(key, "x modified: "+msg)
+		return
+	}
+	// inverse
+	z := buildPre(preInf, 2, AwayFromZero)
+	pv, _ = protect(func() { z.SetMantExp(mant, e) })
+	if pv != nil {
+		c.Fail(key+" SetMantExp", fmt.Sprintf("panic: %v", pv))
+		return
+	}
+	if zo := Observe(z); !zo.Val().Equal(xo.V) || z.Cmp(x) != 0 || zo.Prec != xo.Prec || zo.Mode != xo.Mode {
+		c.Fail(key+" SetMantExp", fmt.Sprintf("SetMantExp(mant, MantExp(mant)) = %s, want x = %s", zo, xo))
+		return
+	}
+	// aliasing: x.MantExp(x) sets x to its mantissa
+	x2 := xo.Build()
+	e2 := x2.MantExp(x2)
+	if o2 := Observe(x2); e2 != e || !o2.Val().Equal(mo.Val()) || o2.Exp != 0 {
+		c.Fail(key+" aliased", fmt.Sprintf("x.MantExp(x) = %d, x = %s; want %d, %s", e2, o2, e, mo))
+	}
+	if c.WantSample() {
+		c.Sample(fmt.Sprintf("%s -> mant %s e=%d", key, mo, e))
+	}
+}
+
+func init() {
+	register(&Property{
+		ID: "C14", Level: "model_checking",
+		Rule: "a case is (getter set, x) or (setter, argument, receiver precision, mode, pre-state); distinct by construction; non-trivial when a fraction is discarded (getters) or the argument needs rounding (setters)",
+		Assumptions: []string{
+			"oracle: big.Int / big.Rat arithmetic",
+			"Int/Rat are not materialised for |exponent| > 100000 (only Int64/Uint64/IsInt there)",
+			"accuracy of the setters is judged by C02, precision-0 rules by C09",
+		},
+		Layers: func(tier string) []Layer { return append(getterLayers(tier), setterLayers(judgeValue, tier)[:3]...) },
+	})
+	register(&Property{
+		ID: "C20", Level: "model_checking",
+		Rule: "a case is (raw word vector, exponent, receiver precision, mode, pre-state) or (x, exponent) for the MantExp laws; non-trivial when the vector needs rounding, normalisation or stripping, or the exponent leaves the range",
+		Assumptions: []string{
+			"for a precision-0 receiver the property requires a value (no panic); the check demands the exact value with any precision >= the digit count",
+			"buffer sharing between SetBitsExp's argument and the result is counted, not judged",
+		},
+		Layers: func(tier string) []Layer {
+			ls := rawLayers(tier)
+			return append(ls, setterLayers(judgeValue, tier)[3]) // S4-SetMantExp
+		},
+	})
+}
